@@ -37,3 +37,13 @@ package bundler
 // later build with different options gets (an arrival-order dependence). Every use of `options` in
 // parseRuntime must be a field read stored straight into the key.
 //@ keyed runtime-cache-key C08: func=(*runtimeCache).parseRuntime ; in=bundler ; param=options ; key=runtimeCacheKey
+
+// ----------------------------------------------------------------------------------------------
+// C02: "the value obtained by importing a non-JavaScript file is exactly the file's bytes, text or JSON
+// value". In parseFile every string literal that becomes a data loader's export is built from the file
+// contents and nothing else: text -> the contents (BOM stripped); base64/binary -> standard base64 of the
+// contents; dataurl -> the shortest data URL of the contents (plus a preserved #fragment); file -> the
+// unique key of the emitted file.
+//@ flow loader-value-provenance C02: func=parseFile ; in=bundler ; site=store EString.Value ; valuepath=call StringToUTF16(source.Contents)|call StringToUTF16(call EncodeToString(base64.StdEncoding,source.Contents))|call StringToUTF16(phi:url)|call StringToUTF16(call Sprintf("%sA%08d",[args.uniqueKeyPrefix,args.sourceIndex])+source.KeyPath.IgnoredSuffix)
+// the data URL itself is the encoder's output for these contents, optionally followed by the preserved fragment
+//@ flow dataurl-provenance C02: func=parseFile ; in=bundler ; site=call EncodeStringAsShortestDataURL ; argpath=1:source.Contents
